@@ -81,7 +81,7 @@ def run(res, tier, seed):
     res.extra["names_accepted_although_spec_refuses"] = lenient
     res.extra["valid_names_refused (judged by C02)"] = refused_valid
     # ---- T
-    n_rand = 60000 if tier == "thorough" else 6000
+    n_rand = 400000 if tier == "thorough" else 6000
     tpath = os.path.join(wd, "decode.trace.ndjson")
     try:
         vlib.run_driver("drive_wire", ["record-decode", "--trace", tpath, "--n", str(n_rand), "--seed", str(seed)],
